@@ -967,7 +967,8 @@ func first(a, _ []byte) []byte { return a }
 //@   opt leaf alphaLeafNode
 //@   opt casts on
 //@   opt extent on
-//@   requires root.pointer != nil && liveRef(root) && HeapOK_alpha() && LinkedLive() && leafT() == typeid(alphaLeafNode)
+//@   captures root.pointer != nil
+//@   requires liveRef(root) && HeapOK_alpha() && LinkedLive() && leafT() == typeid(alphaLeafNode)
 //@   ensures[pure] frame()
 //@   loop 1 (q)
 //@     invariant stacksOK(q, depths)
@@ -985,7 +986,8 @@ func first(a, _ []byte) []byte { return a }
 //@   opt leaf unsignedLeafNode
 //@   opt casts on
 //@   opt extent on
-//@   requires root.pointer != nil && liveRef(root) && HeapOK_unsigned() && LinkedLive() && leafT() == typeid(unsignedLeafNode)
+//@   captures root.pointer != nil
+//@   requires liveRef(root) && HeapOK_unsigned() && LinkedLive() && leafT() == typeid(unsignedLeafNode)
 //@   ensures[pure] frame()
 //@   loop 1 (q)
 //@     invariant stacksOK(q, depths)
@@ -1003,7 +1005,8 @@ func first(a, _ []byte) []byte { return a }
 //@   opt leaf compoundLeafNode
 //@   opt casts on
 //@   opt extent on
-//@   requires root.pointer != nil && liveRef(root) && HeapOK_compound() && LinkedLive() && leafT() == typeid(compoundLeafNode)
+//@   captures root.pointer != nil
+//@   requires liveRef(root) && HeapOK_compound() && LinkedLive() && leafT() == typeid(compoundLeafNode)
 //@   ensures[pure] frame()
 //@   loop 1 (q)
 //@     invariant stacksOK(q, depths)
@@ -1021,7 +1024,8 @@ func first(a, _ []byte) []byte { return a }
 //@   opt leaf collateLeafNode
 //@   opt casts on
 //@   opt extent on
-//@   requires root.pointer != nil && liveRef(root) && HeapOK_collation() && LinkedLive() && leafT() == typeid(collateLeafNode)
+//@   captures root.pointer != nil
+//@   requires liveRef(root) && HeapOK_collation() && LinkedLive() && leafT() == typeid(collateLeafNode)
 //@   ensures[pure] frame()
 //@   loop 1 (q)
 //@     invariant stacksOK(q, depths)
